@@ -14,6 +14,7 @@ import (
 
 	"verif/harness/internal/vt"
 	"verif/harness/internal/winpath"
+	"verif/harness/internal/winpathold"
 )
 
 // alphabet of the property statement.
@@ -40,6 +41,13 @@ var refLinux = &ref{"linux", '/', filepath.Clean, filepath.Join, filepath.Split,
 	filepath.Rel, filepath.FromSlash, filepath.ToSlash, filepath.VolumeName, filepath.Match}
 var refWindows = &ref{"windows", '\\', winpath.Clean, winpath.Join, winpath.Split, winpath.Dir, winpath.Base, winpath.IsAbs,
 	winpath.Rel, winpath.FromSlash, winpath.ToSlash, winpath.VolumeName, winpath.Match}
+
+// refWindowsOldVol is the same reference with the volume-name parser path/filepath had before
+// Go 1.20 (the one avfs was ported from): the model of the known finding C13-win-volume-parser.
+// A deviation from refWindows belongs to that finding exactly when avfs returns what this
+// second reference returns.
+var refWindowsOldVol = &ref{"windows", '\\', winpathold.Clean, winpathold.Join, winpathold.Split, winpathold.Dir, winpathold.Base, winpathold.IsAbs,
+	winpathold.Rel, winpathold.FromSlash, winpathold.ToSlash, winpathold.VolumeName, winpathold.Match}
 
 type sut struct {
 	name string
@@ -147,6 +155,17 @@ func call(x *sut, fn string, a []string) (got, want string) {
 			got = fmt.Sprint(m) + "\x00" + errKind(e)
 		}
 	}()
+	return got, wantOf(r, x, fn, a)
+}
+
+// wantOf renders what reference r returns.
+func wantOf(r *ref, x *sut, fn string, a []string) (want string) {
+	arg := func(i int) string {
+		if i < len(a) {
+			return a[i]
+		}
+		return ""
+	}
 	switch fn {
 	case "Clean":
 		want = r.Clean(arg(0))
@@ -162,6 +181,15 @@ func call(x *sut, fn string, a []string) (got, want string) {
 	case "IsAbs":
 		want = fmt.Sprint(r.IsAbs(arg(0)))
 	case "Rel":
+		if refRelLoops(r, arg(0), arg(1)) {
+			// Go's own filepath.Rel never returns here (checked up to go1.26.8): the two paths are
+			// one directory spelt `\\host\share` and `\\host\share\`; the early "same path" test
+			// compares the cleaned spellings, which differ, and the element loop has no exit
+			// when both remainders run out together. The reference is not called; what the
+			// documentation of Rel promises for equal directories is ".".
+			want = ".\x00nil"
+			break
+		}
 		s, e := r.Rel(arg(0), arg(1))
 		want = s + "\x00" + errKind(e)
 	case "Abs":
@@ -180,7 +208,26 @@ func call(x *sut, fn string, a []string) (got, want string) {
 		m, e := r.Match(arg(0), arg(1))
 		want = fmt.Sprint(m) + "\x00" + errKind(e)
 	}
-	return got, want
+	return want
+}
+
+// refRelLoops: the inputs on which Go's filepath.Rel (Windows) does not terminate.
+func refRelLoops(r *ref, a, b string) bool {
+	if r.os != "windows" {
+		return false
+	}
+	bv, tv := r.Volume(a), r.Volume(b)
+	ca, cb := r.Clean(a), r.Clean(b)
+	if len(bv) > len(ca) || len(tv) > len(cb) || strings.EqualFold(ca, cb) {
+		return false
+	}
+	base, targ := ca[len(bv):], cb[len(tv):]
+	if base == "." {
+		base = ""
+	} else if base == "" && len(bv) > 2 {
+		base = string(r.sep)
+	}
+	return strings.EqualFold(bv, tv) && strings.EqualFold(base, targ)
 }
 
 // absComparable: on Windows the real Abs asks the OS (GetFullPathName), which
@@ -221,29 +268,27 @@ func classify(x *sut, fn string, a []string, got, want string) string {
 	if x.r.os != "windows" {
 		return "linux"
 	}
-	// volume-name parser: some argument, or the concatenations Join works on,
-	// gets a different volume-name length from avfs and from the reference.
-	cands := append([]string{}, a...)
-	if len(a) > 1 {
-		cands = append(cands, strings.Join(a, `\`), strings.Join(a, ""))
-	}
-	cands = append(cands, got, want)
-	// functions that strip the volume re-parse the remainder (Dir, Clean, Rel)
-	for _, s := range append([]string{}, cands...) {
-		if n := volLen(x, s); n > 0 && n <= len(s) {
-			cands = append(cands, s[n:])
-		}
-		if n := len(x.r.Volume(s)); n > 0 {
-			cands = append(cands, s[n:])
-		}
-	}
-	for _, s := range cands {
-		s = strings.SplitN(s, "\x00", 2)[0]
-		if volLen(x, s) != len(x.r.Volume(s)) {
+	// volume-name parser: avfs returns exactly what path/filepath returns with the old parser
+	if !refRelLoops(refWindowsOldVol, a0(a), a1(a)) || fn != "Rel" {
+		if got == wantOf(refWindowsOldVol, x, fn, a) {
 			return "vol"
 		}
 	}
 	return "other"
+}
+
+func a0(a []string) string {
+	if len(a) > 0 {
+		return a[0]
+	}
+	return ""
+}
+
+func a1(a []string) string {
+	if len(a) > 1 {
+		return a[1]
+	}
+	return ""
 }
 
 func check(c *vt.Ctx, x *sut, fn string, a []string) *vt.Failure {
@@ -370,6 +415,35 @@ func TestCheck(t *testing.T) {
 	c.Sample("pair", map[string]any{"fn": "Join, Rel, Match", "args": []string{strs[len(strs)/2], strs[len(strs)/3]}})
 	c.Extra("exhaustive_two_arg", fmt.Sprintf("all pairs of the %d strings of <= %d symbols, x %d functions x 2 OS types", len(strs), l2, len(twoArg)))
 	c.SetExhaustive(true)
+
+	// 3b. bounded-exhaustive over structured atoms: whole separators runs, UNC and device prefixes,
+	// drive-relative forms - every pair and triple as Join arguments, every pair for Rel and Match.
+	// (Character-level enumeration cannot afford the length of `\\a\b`; element boundaries are
+	// where Join has its special cases.)
+	atoms := []string{"", `\`, `/`, `\\`, `//`, `a`, `a\`, `\a`, `/a`, `\\a`, `\\a\b`, `\\a\b\`, `//a/b`, `\\?\x`, `\\.\x`, `\??\x`, `C:`, `C:\`, `C:a`, `c:\a`, `.`, `..`, `..\a`, `a\..\b`, `a/`, `*`, `[a]`}
+	ai := 0
+	for _, a1 := range atoms {
+		for _, a2 := range atoms {
+			ai++
+			if ai%c.NShards != c.Shard {
+				continue
+			}
+			for _, x := range mem {
+				for _, fn := range twoArg {
+					if f := check(c, x, fn, []string{a1, a2}); f != nil {
+						c.Report(f.Dev, f.Replay)
+					}
+				}
+				for _, a3 := range atoms {
+					if f := check(c, x, "Join", []string{a1, a2, a3}); f != nil {
+						c.Report(f.Dev, f.Replay)
+					}
+				}
+			}
+			note(c, "atoms", []string{a1, a2})
+		}
+	}
+	c.Extra("exhaustive_atoms", fmt.Sprintf("all pairs (Join, Rel, Match) and triples (Join) of %d structured atoms x 2 OS types", len(atoms)))
 
 	// 4. random longer inputs (rapid), all four file systems
 	tok := rapid.SampledFrom([]string{"a", "C", "bb", ".", "..", "/", `\`, "//", `\\`, ":", "C:", "c:", "?", "*", "[", "]", "-", "^", "é", `\\?\`, `\??\`, `\\.\`, "host", "share", "UNC", "NUL", "COM1", "[a-C]", "[^a]", `\*`, " "})
